@@ -18,6 +18,10 @@ Children(r, a) ==
        { [child |-> "none", cn |-> 0], [child |-> "outlive", cn |-> 0],
          [child |-> "exitfirst", cn |-> OtherCode(a)] }
   \cup { [child |-> "killed", cn |-> s] : s \in KillSigs \cup (IF r = "ptrace" THEN LimitSigs ELSE {}) }
+  \* a re-parented descendant (double fork, the intermediate parent exits) that stays in the program's
+  \* process group and ends before the main process, with another code or by a signal
+  \cup { [child |-> "orphanexit", cn |-> OtherCode(a)] }
+  \cup { [child |-> "orphankilled", cn |-> s] : s \in KillSigs }
 
 RealCases ==
   UNION { UNION { { [runner |-> r, kind |-> a.kind, n |-> a.n, child |-> c.child, cn |-> c.cn] : c \in Children(r, a) }
